@@ -3,7 +3,7 @@
 From Coq Require Import String.
 From Coq Require Import List Strings.Byte NArith ZArith Bool.
 Require Import Bytes Show Tables Codec Norm CleanPath Chain.
-Require Serve Rot Ser ResetLang ResetModel ResetClass Range UriSplit TrailerKeys Rd Chunk HeaderBlock RespFrame Pool Router Bind HzRouter Shutdown Radix BodyStream HeaderScan.
+Require Serve Rot Ser ResetLang ResetModel ResetClass Range UriSplit TrailerKeys Rd Chunk HeaderBlock RespFrame Pool Router Bind HzRouter Shutdown Radix BodyStream HeaderScan ReqHead.
 Import ListNotations.
 
 Definition arg (args : list bs) (i : nat) : bs := nth i args [].
@@ -62,6 +62,7 @@ Definition entries : list (bs * (list bs -> bs)) := [
   (B "hz_interp", fun a => HzRouter.hz_interp a);
   (B "radix_script", fun a => Radix.radix_script a);
   (B "header_scan", fun a => HeaderScan.header_scan a);
+  (B "req_head", fun a => ReqHead.req_head a);
   (B "stream_script", fun a => BodyStream.stream_script a);
   (B "route_find", fun a => Router.route_find (bs_eqb (arg a 0) (B "1")) (skipn 2 a) (arg a 1));
   (B "header_block_len", fun a => HeaderBlock.show_opt_nat (HeaderBlock.header_block_len (arg a 0)));
